@@ -110,11 +110,14 @@ CLAIMS = {
          "Lean 4 theorems over canonical oracle records + spelling-group correspondence (B3)"),
  "C15": ("Theorems scanMetas_skip_other / scanMetas_only_mine / scanMetas_depends_on_own_metas (every attribute scanner's result is a function of "
          "the metas of its own trait; metas of other traits are only validated as trait names), scanAttrs_skip_other_attribute, "
-         "copy_handler_consults_clone_only (the only reads of the trait set are the three documented couplings; Ctx.traits is a membership "
-         "function so order/re-configuration of other traits cannot be observed - with C16 dispatch_perm). Tie: twin definitions from all "
+         "copy_handler_consults_clone_only; handler level: handlerFor_depends_on_partner_only with debug/eqLike/ordLike/clone/marker/default/"
+         "deref/intoHandler_traits (replace the set of educed traits by any set that agrees on the traits named in field / variant "
+         "attributes and on the documented partner: the trait's items are identical; Debug, Hash, Default, Deref, DerefMut, Into need no "
+         "membership agreement at all). Ctx.traits is a membership function so order / re-configuration of other traits cannot be "
+         "observed (with C16 dispatch_perm). Tie: twin definitions from all "
          "behavioural generators: alone / with 1-3 other traits and their own attributes on the same fields / with one educed trait and all "
          "its metas removed; every non-coupled impl's real token stream must be identical across the twins, model agrees.",
-         COMMON_NOTE + "the claim 'handlers read only their own builder's result' is carried by the model's handler signatures (each takes only its own scanned attributes) and tied by the twin correspondence, not by a source-level data-flow analysis.",
+         COMMON_NOTE + "that the real handlers read nothing else is tied by the twin correspondence, not by a source-level data-flow analysis.",
          "Lean 4 theorems over scanner model + twin-definition correspondence (B3)"),
  "C18": ("(b) over the table regenerated from /repo/src + Cargo.toml (Generated/Features.lean: every #[cfg] on modules, items, statements, "
          "match arms, variants; every reference to a crate module / gated re-export / `Trait::X` variant / cfg'd local resolved to (context "
